@@ -5,6 +5,10 @@
      closed  a-b        open  a-        suffix  -a  (last a bytes)
      bad     not a byte-range-spec; a picks the spelling:
              1 "abc-"   2 "5" (no dash)   3 "-"   4 "-xyz"   5 "2-x"
+             6 "1-+5"   7 "+1-5" (signed numbers)   8 "1_0-2_0" (digit groups)
+             9 "--5" (signed suffix length)   10 "\u00B2-5" (SUPERSCRIPT TWO: a
+             digit for str.isdigit(), not for int(), not for the RFC)
+             11 "1 0-5" (blank inside a number)
    (b = -1 where unused).  The file has `size` distinct bytes, so a body that is
    a slice of it has one offset.
 
